@@ -257,4 +257,205 @@ theorem sum_refines (e : Expr) (vs : List Value) (r : Value) (h : aggregate (.su
             · simp at h
           | none => simp [hi, hr, hn] at h
 
+/-! ### AVG -/
+
+/-- the average published after an update (`map_numeric` of the sum by the count) -/
+def avgPub (s : Value) (c : Int) : Option Value :=
+  match s with
+  | .int x => some (.int (Int.tdiv x c))
+  | .real x => some (.real (F64.div x (F64.ofInt c)))
+  | .interval x => some (.interval (Int.tdiv x c))
+  | _ => none
+
+theorem aggUpdate_avg (s v : Value) (c : Int) :
+    aggUpdate (.avg s c) v = (addToSum s v).bind (fun s' => .ok (.avg s' (c + 1), avgPub s' (c + 1))) := by
+  simp only [aggUpdate, bind, pure]
+  cases addToSum s v with
+  | ok s' => cases s' <;> rfl
+  | error k => rfl
+  | panic k => rfl
+  | oracleMissing k => rfl
+
+def avgCell (s : Value) (n : Int) (x : Option Value) : Cell := { agg := some (.avg s n), val := x }
+
+def avgLast {α : Type} (plus : α → α → α) (shw : α → Int → Value) (x : Option Value) (s : α) (n : Int) : List α → Option Value
+  | [] => x
+  | y :: ys => some (shw ((y :: ys).foldl plus s) (n + ((y :: ys).length : Nat)))
+
+theorem foldV_avg_num {α : Type} {inj : α → Value} {plus : α → α → α} {okp : α → Bool} {zero : α}
+    (N : NumLike inj plus okp zero) (shw : α → Int → Value) (hpub : ∀ s c, avgPub (inj s) c = some (shw s c))
+    (e : Expr) (vs : List Value) (s : α) (n : Int) (x : Option Value) (ys : List α)
+    (hys : nonNull vs = ys.map inj) (hok : psOk plus okp s ys = true) :
+    foldV (.avg e) vs (avgCell (inj s) n x) =
+      .ok (avgCell (inj (ys.foldl plus s)) (n + (ys.length : Nat)) (avgLast plus shw x s n ys)) := by
+  induction vs generalizing s n x ys with
+  | nil =>
+    simp [nonNull] at hys; cases ys <;> simp at hys
+    simp [foldV, avgLast]
+  | cons v vs ih =>
+    cases hv : v.isNull
+    · rw [nonNull_cons_of_not_null hv] at hys
+      obtain ⟨y, ys', rfl, rfl, hys'⟩ := map_cons_inv hys
+      simp only [psOk, Bool.and_eq_true] at hok
+      simp only [foldV, stepV, avgCell, Option.getD, hv, Bool.not_false, if_true, aggUpdate_avg, N.add, hok.1, bind,
+        Outcome.bind, pure, hpub]
+      have := ih (plus s y) (n + 1) (some (shw (plus s y) (n + 1))) ys' hys' hok.2
+      simp only [avgCell] at this
+      rw [this]
+      have hlen : n + 1 + ((ys'.length : Nat) : Int) = n + (((y :: ys').length : Nat) : Int) := by
+        simp only [List.length_cons]; omega
+      simp only [List.foldl_cons, hlen]
+      cases ys' with
+      | nil => simp [avgLast]
+      | cons y2 ys2 => simp only [avgLast, List.foldl_cons, hlen]
+    · have := isNull_eq_true hv; subst this
+      rw [nonNull_cons_null] at hys
+      simp only [foldV, stepV, avgCell, Option.getD, isNull_null, Bool.not_true, Bool.false_eq_true, if_false, aggIsNull,
+        N.notNull, Outcome.bind]
+      exact ih s n x ys hys hok
+
+/-- the value shown after a NULL start -/
+def avgNullVal {α : Type} (plus : α → α → α) (shw : α → Int → Value) : List α → Value
+  | [] => .null
+  | y :: ys' => shw (ys'.foldl plus y) ((y :: ys').length : Nat)
+
+theorem foldV_avg_null {α : Type} {inj : α → Value} {plus : α → α → α} {okp : α → Bool} {zero : α}
+    (N : NumLike inj plus okp zero) (shw : α → Int → Value) (hpub : ∀ s c, avgPub (inj s) c = some (shw s c))
+    (e : Expr) (vs : List Value) (ys : List α)
+    (hys : nonNull vs = ys.map inj) (hok : ∀ y ys', ys = y :: ys' → psOk plus okp y ys' = true) :
+    foldV (.avg e) vs (avgCell .null 0 (some .null)) =
+      .ok (avgCell (sumFromNull inj plus ys) (ys.length : Nat) (some (avgNullVal plus shw ys))) := by
+  induction vs generalizing ys with
+  | nil =>
+    simp [nonNull] at hys; cases ys <;> simp at hys
+    rfl
+  | cons v vs ih =>
+    cases hv : v.isNull
+    · rw [nonNull_cons_of_not_null hv] at hys
+      obtain ⟨y, ys', rfl, rfl, hys'⟩ := map_cons_inv hys
+      simp only [foldV, stepV, avgCell, Option.getD, hv, Bool.not_false, if_true, aggUpdate_avg, N.addNull, bind,
+        Outcome.bind, pure, hpub]
+      have := foldV_avg_num N shw hpub e vs y (0 + 1) (some (shw y (0 + 1))) ys' hys' (hok y ys' rfl)
+      simp only [avgCell] at this
+      rw [this]
+      have hlen : (0 : Int) + 1 + ((ys'.length : Nat) : Int) = (((y :: ys').length : Nat) : Int) := by
+        simp only [List.length_cons]; omega
+      simp only [avgCell, sumFromNull, avgNullVal, hlen]
+      cases ys' with
+      | nil => simp [avgLast]
+      | cons y2 ys2 => simp only [avgLast, hlen]
+    · have := isNull_eq_true hv; subst this
+      rw [nonNull_cons_null] at hys
+      simp only [foldV, stepV, avgCell, Option.getD, isNull_null, Bool.not_true, Bool.false_eq_true, if_false, aggIsNull,
+        Outcome.bind, if_true]
+      exact ih ys hys hok
+
+theorem foldV_avg_init (e : Expr) (v : Value) (vs : List Value) :
+    foldV (.avg e) (v :: vs) {} = foldV (.avg e) (v :: vs) (avgCell (defaultOf v) 0 none) := by
+  simp only [foldV, stepV, avgCell, Option.getD, defaultAggregator]
+  rfl
+
+/-- the specification's average of a list of one numeric type -/
+def avgResult {α : Type} (plus : α → α → α) (zero : α) (shw : α → Int → Value) : List α → Value
+  | [] => .null
+  | y :: ys' => shw ((y :: ys').foldl plus zero) ((y :: ys').length : Nat)
+
+theorem avg_num_cell {α : Type} {inj : α → Value} {plus : α → α → α} {okp : α → Bool} {zero : α}
+    (N : NumLike inj plus okp zero) (shw : α → Int → Value) (hpub : ∀ s c, avgPub (inj s) c = some (shw s c))
+    (e : Expr) (v : Value) (vs : List Value) (ys : List α)
+    (hys : nonNull (v :: vs) = ys.map inj) (hok : psOk plus okp zero ys = true)
+    (hz : ∀ y ys', ys = y :: ys' → plus zero y = y) :
+    ∃ s n, foldV (.avg e) (v :: vs) {} = .ok (avgCell s n (some (avgResult plus zero shw ys))) := by
+  rw [foldV_avg_init]
+  cases hv : v.isNull
+  · have hys' := hys
+    rw [nonNull_cons_of_not_null hv] at hys'
+    obtain ⟨y, ys', rfl, rfl, _⟩ := map_cons_inv hys'
+    rw [N.dflt, foldV_avg_num N shw hpub e _ zero 0 none _ hys hok]
+    simp only [avgLast, avgResult, Int.zero_add]
+    exact ⟨_, _, rfl⟩
+  · have := isNull_eq_true hv; subst this
+    have h1 : foldV (.avg e) (Value.null :: vs) (avgCell (defaultOf .null) 0 none) =
+        foldV (.avg e) vs (avgCell .null 0 (some .null)) := by
+      simp only [foldV, stepV, avgCell, Option.getD, defaultOf, isNull_null, Bool.not_true, Bool.false_eq_true, if_false,
+        aggIsNull, if_true, Outcome.bind]
+    rw [h1, foldV_avg_null N shw hpub e vs ys (by rw [nonNull_cons_null] at hys; exact hys)]
+    · have : avgNullVal plus shw ys = avgResult plus zero shw ys := by
+        cases ys with
+        | nil => rfl
+        | cons y ys' => simp only [avgNullVal, avgResult, List.foldl_cons, hz y ys' rfl]
+      rw [this]
+      exact ⟨_, _, rfl⟩
+    · intro y ys' he
+      subst he
+      simp only [psOk, Bool.and_eq_true, hz y ys' rfl] at hok
+      exact hok.2
+
+/-- AVG: sum of the non-NULL arguments divided by their number (INT: truncating), NULL if there are none -/
+theorem avg_refines (e : Expr) (vs : List Value) (r : Value) (h : aggregate (.avg e) vs = some r) :
+    ∃ c, foldV (.avg e) vs {} = .ok c ∧ shownValue (.avg e) c = r ∧
+      (published c).isSome = createsEntry (.avg e) vs := by
+  cases vs with
+  | nil =>
+    simp [aggregate, nonNull, avgOf] at h
+    exact ⟨{}, rfl, by simp [shownValue, published, emptyGroupValue, h], rfl⟩
+  | cons v vs =>
+    suffices hs : ∃ s n, foldV (.avg e) (v :: vs) {} = .ok (avgCell s n (some r)) by
+      obtain ⟨s, n, hs⟩ := hs
+      exact ⟨_, hs, rfl, rfl⟩
+    simp only [aggregate] at h
+    cases hx : nonNull (v :: vs) with
+    | nil =>
+      simp only [hx, avgOf, Option.some.injEq] at h
+      subst h
+      exact avg_num_cell numLike_int (fun s c => .int (Int.tdiv s c)) (fun _ _ => rfl) e v vs [] (by simpa using hx) rfl (by simp)
+    | cons x xs =>
+      simp only [hx, avgOf] at h
+      cases hi : ints (x :: xs) with
+      | some is =>
+        simp only [hi] at h
+        split at h
+        · simp only [Option.some.injEq] at h
+          subst h
+          rename_i hok
+          have hm := ints_eq hi
+          cases is with
+          | nil => simp at hm
+          | cons i is' =>
+            exact avg_num_cell numLike_int (fun s c => .int (Int.tdiv s c)) (fun _ _ => rfl) e v vs (i :: is')
+              (by rw [hx]; exact hm) (by rw [psOk_int]; exact hok) (by intro y ys' _; exact Int.zero_add y)
+        · simp at h
+      | none =>
+        cases hr : reals (x :: xs) with
+        | some rs =>
+          simp only [hi, hr] at h
+          split at h
+          · simp only [Option.some.injEq] at h
+            subst h
+            rename_i hzn
+            have hm := reals_eq hr
+            cases rs with
+            | nil => simp at hm
+            | cons y rs' =>
+              exact avg_num_cell numLike_real (fun s c => .real (F64.div s (F64.ofInt c))) (fun _ _ => rfl) e v vs (y :: rs')
+                (by rw [hx]; exact hm) (psOk_true _ _ _)
+                (by intro y' ys' he; simp only [List.cons.injEq] at he; rw [← he.1]; exact zeroNeutral_cons hzn)
+          · simp at h
+        | none =>
+          cases hn : intervals (x :: xs) with
+          | some ns =>
+            simp only [hi, hr, hn] at h
+            split at h
+            · simp only [Option.some.injEq] at h
+              subst h
+              rename_i hok
+              have hm := intervals_eq hn
+              cases ns with
+              | nil => simp at hm
+              | cons i ns' =>
+                exact avg_num_cell numLike_interval (fun s c => .interval (Int.tdiv s c)) (fun _ _ => rfl) e v vs (i :: ns')
+                  (by rw [hx]; exact hm) (by rw [psOk_int]; exact hok) (by intro y ys' _; exact Int.zero_add y)
+            · simp at h
+          | none => simp [hi, hr, hn] at h
+
 end Sqlgrep
